@@ -258,9 +258,15 @@ def run_container(P, pid, cspec, tier, seed):
         for h in base:
             fv.extend(fault_variants(runner, h, 40 if tier == "quick" else 300, rng))
         batches.append(("fault-enumeration", fv))
+    t_start = time.time()
+    budget = cspec.get("budget_quick", 120) if tier == "quick" else cspec.get("budget_thorough", 900)
+    truncated = []
     for bname, hs in batches:
         CH = 300
         for lo in range(0, len(hs), CH):
+            if time.time() - t_start > budget:
+                truncated.append((bname, lo, len(hs)))
+                break
             chunk = hs[lo:lo + CH]
             try:
                 res = runner.run(chunk)
@@ -297,7 +303,8 @@ def run_container(P, pid, cspec, tier, seed):
             out["c_coverage"] = vlib.coverage_run(container, allh, 1500 if tier == "quick" else 6000)
         except Exception as e:
             out["problems"].append(f"{container}/coverage: {str(e)[:200]}")
-    out["stats"] = dict(runner.stats(), streams=[(b, len(h)) for b, h in batches], focus=focus)
+    out["stats"] = dict(runner.stats(), streams=[(b, len(h)) for b, h in batches], focus=focus,
+                        truncated_by_time_budget=[f"{b}: ran {lo} of {n} histories" for b, lo, n in truncated])
     out["samples"] = runner.samples
     return out
 
